@@ -38,6 +38,10 @@ claim('C09', 'CrossHair symbolic execution of small_factors (symbolic n) and _ge
       'for all k, z3 regex-theory equivalence of terminal-level repetition patterns, and CrossHair-driven end-to-end parses around the bounds',
       'Bounded in n, mx, m (stated in evidence); unbounded in the repetition count k (LIA) and in the matched string (regex theory).',
       'Trusted: z3 LIA/regex theory, the compositional interval argument (sum of intervals is an interval; union checked by z3).', '3/C09')
+claim('C11', 'CrossHair solver-closed enumeration of class-strings / lexeme sequences and API choices (parse, parse_interactive+accepts, scan) against four independently obtained parsers '
+      '(direct, load(save()), cache hit, generated stand-alone module executed in-process), compared structurally incl. positions and meta',
+      'Bounded by input length per configuration (10 configurations: lexers, keep_all_tokens, maybe_placeholders, propagate_positions, multiple starts, bytes, global regex flags, imports+templates+priorities, 131 terminals).',
+      'Realised mode (re/pickle are C extensions); the direct parser is the reference (relational property).', '3/C11')
 claim('C12', 'CrossHair solver-closed enumeration of fault positions (truncation offsets, byte replacements) and build histories over an in-memory file-system stub, realised; '
       'behavioural equivalence with an uncached build plus a rebuild counter',
       'Fault enumeration in the solver-based style: the abstract fault domain is closed by CrossHair (quick: every pickle opcode/argument boundary; thorough: every byte); the rest runs concretely '
